@@ -26,7 +26,7 @@ cd /verif
 RES=""
 for C in "$@"; do
   echo "--- ./check $C against the changed tree"
-  VERIF_REPO="$WT" timeout 1500 ./check "$C" --tier quick > "$OUT/check_$C.txt" 2>&1; RC=$?
+  VERIF_EVIDENCE_DIR="$OUT/evidence" VERIF_REPLAY_DIR="$OUT/replays" VERIF_REPO="$WT" timeout 1500 ./check "$C" --tier quick > "$OUT/check_$C.txt" 2>&1; RC=$?
   grep -E "^VIOLATION|^  .*violated|^$C quick|MACHINERY" "$OUT/check_$C.txt" | head -6
   echo "check $C rc=$RC"
   RES="$RES $C:rc=$RC"
